@@ -160,6 +160,7 @@ int main(int argc, char** argv)
   spec.rule = "as c15_space_a, for the families discontinuous P0/P1, Crouzeix-Raviart/Rannacher-Turek, Bernstein-2, P2-bubble, "
     "Cai-Douglas-Santos-Sheen-Ye, Q1~-bnp; for the non-conforming families the conformity statement is the agreement of the shared node "
     "functionals (facet means / midpoint values) from both cells, checked through the cell-wise duality.";
+  spec.max_fail_per_worker = 1000000; // known findings fire in every case of the affected family
   spec.bounds_quick = "as c15_space_a";
   spec.bounds_thorough = "as c15_space_a";
   spec.assumptions = {
